@@ -291,6 +291,66 @@ def main():
                             {"start": start, "input": s, "shipped": ra, "fresh": rb,
                              "how": "measured._parser.Parser().parse(input, start=start) vs the parser generated by `python -m lark.tools.standalone --start unit --start quantity measured.lark`"})
     c.cov["accepted"] = acc; c.cov["rejected"] = rej
+    # ---------------- the character-level model (Model/Lex.v + Model/LR.v) against the shipped parser: text -> tree / exception class
+    import lexgen
+    try:
+        ltxt, nid, order_names = lexgen.model(A, sid, allrules)
+        c.cov["terminal_order"] = order_names
+        # the side conditions of C16_every_text other than the tables: both artefacts give the scanner and the tree builder the same data
+        try:
+            ltxtB, nidB, _ = lexgen.model(B, sid, allrules)
+            for nm in ("lex_order", "lex_ignore", "rule_infos", "filtered", "str_texts", "no_embedded"):
+                ltxtB = re.sub(r"\b%s\b" % nm, nm + "_B", ltxtB)
+            gl = (LHEADER + "From Coq Require Import NArith.\nFrom Measured Require Import Model.Lex.\n" + ltxt + ltxtB +
+                  "Lemma lexdata_equal : lex_order = lex_order_B /\\ lex_ignore = lex_ignore_B /\\ rule_infos = rule_infos_B /\\ filtered = filtered_B.\n"
+                  "Proof. repeat split; reflexivity. Qed.\n")
+            okl, logl = c.run_coq({"Gen_lexdata": gl})["Gen_lexdata"]
+            c.oblige("Gen_lexdata.lexdata_equal / no_embedded (the shipped and the regenerated artefact give the scanner the same terminal definitions in the same order, the same "
+                     "ignore list, and the tree builder the same rule options; no string terminal is embedded in a regular-expression one)", okl and nid == nidB, logl[-800:])
+        except lexgen.Untranslatable as ex:
+            c.oblige("Gen_lexdata (the regenerated artefact's terminals are inside the translator's subset)", False, f"untranslatable: {ex}")
+        texts = list(dict.fromkeys(cand + strings))
+        junk_alphabet = "mskgKΩμ°.-()ₐ☉1 5+-2.eE^⁻²³*/⋅\t\n _@é"
+        for _ in range(300 if quick else 5000):
+            texts.append("".join(rng.choice(junk_alphabet) for _ in range(rng.randint(0, 9))))
+        texts = list(dict.fromkeys(texts))[: (1400 if quick else 20000)]
+        ERR = {"UnexpectedCharacters": "PUnexpectedCharacters", "UnexpectedToken": "PUnexpectedToken"}
+        items, skipped_txt = {st: [] for st in A["start_states"]}, 0
+        for s_ in texts:
+            for st in sorted(A["start_states"]):
+                r_ = run_parser(ShippedP, st, s_)
+                try:
+                    if r_[0] == "ok": e_ = f"(PTree {lexgen.coq_tree(r_[1], sid, nid)})"
+                    elif r_[1] in ERR: e_ = ERR[r_[1]]
+                    else: raise lexgen.Untranslatable(r_[1])
+                    items[st].append(f"({lexgen.ctext(s_)}, {e_})")
+                except lexgen.Untranslatable:
+                    skipped_txt += 1
+        rules_coq2 = clist(f"(MkRule {cpos(sid[r[0]])} {cnat(len(r[1]))})" for r in allrules)
+        head = (LHEADER + "From Coq Require Import NArith.\nFrom Measured Require Import Model.Lex.\n" + ltxt +
+                f"Definition rules : list rule := {rules_coq2}.\nDefinition terminals : list positive := {terminals}.\n")
+        files = {}
+        shard = 350
+        nshards = 0
+        for st in sorted(A["start_states"]):
+            for k in range(0, len(items[st]), shard):
+                files[f"Run_text_{st}_{k // shard}"] = (head + f"Definition T : table := {ctable(A, st)}.\n"
+                    f"Definition cases : list (text * presult) := {clist(items[st][k:k + shard])}.\n"
+                    f"Definition ok (c : text * presult) : bool := presult_eqb (parse_text lex_order lex_ignore rules rule_infos filtered terminals {cpos(sid['$END'])} T (fst c)) (snd c).\n"
+                    "Definition mm := Eval vm_compute in map fst (filter (fun ic => negb (ok (snd ic))) (combine (seq 0 (length cases)) cases)).\nPrint mm.\n"
+                    "Lemma run_agrees : mm = [].\nProof. vm_compute. reflexivity. Qed.\n")
+                nshards += 1
+        outs = c.run_coq(files)
+        nbad = 0
+        for name, (ok_, log_) in sorted(outs.items()):
+            mm = re.search(r"mm =\s*(\[[^\]]*\])", log_, re.S)
+            bad = [int(t) for t in re.findall(r"\d+", mm.group(1))] if mm else []
+            c.oblige(f"{name}.run_agrees (character-level model = measured._parser.Parser().parse on {shard} texts: same tree, or the same of UnexpectedCharacters / UnexpectedToken)",
+                     ok_, (f"mismatching texts {bad[:6]}" if bad else log_[-800:]))
+            nbad += len(bad)
+        c.cov["text_model"] = {"texts": len(texts), "cases": sum(len(v) for v in items.values()), "outside_model": skipped_txt, "mismatches": nbad}
+    except lexgen.Untranslatable as ex:
+        c.oblige("lexgen (translator of the terminals' regular expressions and the rules' tree options)", False, f"untranslatable: {ex}")
     c.sample({"input": strings[0], "shipped": run_parser(ShippedP, "unit", strings[0])}); c.sample({"input": strings[5], "shipped": run_parser(ShippedP, "quantity", strings[5])})
     c.finish(rule="tables: exhaustive over all states and entries of both LALR tables, all rules, terminals and the semantically relevant options (Coq obligations, "
                   "regenerated every run from _parser.DATA/MEMO and from the generator's output on measured.lark). strings: grammar-generated units and quantities with "
